@@ -344,7 +344,14 @@ func getTagType(v reflect.Value) (byte, reflect.Value) {
 	case reflect.Array, reflect.Slice:
 		var elemType byte
 		if v.Len() > 0 {
-			elemType, _ = getTagType(v.Index(0))
+			var elem reflect.Value
+			elemType, elem = getTagType(v.Index(0))
+			// The typed arrays hold plain integers only. An element which reports
+			// its tag type through the Marshaler interface must go into a TagList.
+			switch elem.Kind() {
+			case reflect.Struct, reflect.Pointer, reflect.Map, reflect.Slice, reflect.Array:
+				return TagList, v
+			}
 		} else {
 			elemType = getTagTypeByType(v.Type().Elem())
 		}
